@@ -419,7 +419,11 @@ class ProtocolMonitor(Monitor):
             dphi = abs((q["phase"] - pslot["phase"] + np.pi) % (2 * np.pi) - np.pi)
             e_now = eom_now(cpre)
             falls = {fall(q, obj, e_now), fall(q, obj, in_block(cpre, q))}
-            pjt = int(obj.phase_jump_time)
+            # from the fields the channel was declared with, not from the derived property under test
+            cpj = getattr(obj, "custom_phase_jump_time", None)
+            pjt = int(cpj) if cpj is not None else 2 * rise(obj)
+            if cpj and not getattr(obj, "mod_bandwidth", None):
+                self.ctx.count("phase_jump_pairs_with_custom_time_and_no_bandwidth")
             x_lo = max(pjt, 2 * eom_rise(obj) * e_now)
             x_hi = max(pjt, 2 * rise(obj) * e_now, x_lo)
             cpd = bool(op.get("cpd"))
